@@ -6,6 +6,7 @@ import Csvq.Model.UnaryPrint
 import Csvq.Model.OpExpr
 import Csvq.Model.Clause
 import Csvq.Model.Query
+import Csvq.Model.Label
 import Csvq.Model.LalrTables
 namespace Csvq.Drive
 open Csvq Csvq.Proto Csvq.Esc Csvq.Scan Csvq.UPrint
@@ -91,18 +92,31 @@ def opWords : List (String × Tok Term) := [
   ("UNION", .kw .union), ("EXCEPT", .kw .except), ("INTERSECT", .kw .intersect), ("ALL", .kw .all),
   ("RECURSIVE", .kw .recursive), ("FOR", .kw .for_), ("UPDATE", .kw .update)]
 
+/-- the atoms carry class and literal in their code (Csvq.Label.classOf): `x<k>` = 4k, the number k = 4k+1, a string
+    literal `'<hex of its content>` = 4p+3, a back-quoted identifier `` `<hex> `` = 8p+2, p = the bytes behind a leading 1 -/
+def literalWord (w : String) : Option Nat :=
+  (unhex (w.drop 1).toString).map Csvq.Label.payloadOf
+
 open Csvq.OpExpr Csvq.Gen.Precedence in
 def wordToTok (w : String) : Option (Tok Term) :=
   match opWords.find? (fun p => p.1 = w) with
   | some (_, t) => some t
   | none =>
-    if w.front = 'x' then (w.drop 1).toString.toNat?.map (fun n => .atom (2 * n))
-    else w.toNat?.map (fun n => .atom (2 * n + 1))
+    if w.front = 'x' then (w.drop 1).toString.toNat?.map (fun n => .atom (4 * n))
+    else if w.front = '\'' then (literalWord w).map (fun p => .atom (4 * p + 3))
+    else if w.front = '`' then (literalWord w).map (fun p => .atom (8 * p + 2))
+    else w.toNat?.map (fun n => .atom (4 * n + 1))
 
 open Csvq.OpExpr Csvq.Gen.Precedence in
 def tokToWord (t : Tok Term) : String :=
   match t with
-  | .atom n => if n % 2 = 0 then "x" ++ toString (n / 2) else toString (n / 2)
+  | .atom n =>
+    match Csvq.Label.classOf n with
+    | .xident => "x" ++ toString (n / 4)
+    | .number => toString (n / 4)
+    | .string => "'" ++ hex (Csvq.Label.payloadBytes (n / 4))
+    | .quotedIdent => "`" ++ hex (Csvq.Label.payloadBytes (n / 8))
+    | .namedIdent => "i" ++ hex (Csvq.Label.payloadBytes (n / 8))
   | t => match opWords.find? (fun p => p.2 = t) with
     | some (w, _) => w
     | none => "?"
@@ -171,6 +185,31 @@ def qryx (words : List String) : String :=
     | some q => showQuery q ++ " | " ++ String.intercalate " " ((printQuery genTable q).map tokToWord)
     | none => "ERR"
 
+/-! `c18.lbl`: Field.Name() of every item of a select list, as the text the header line shows -/
+
+open Csvq.OpExpr Csvq.Label Csvq.Gen.Precedence in
+def genSpell : Spell Term where
+  atoms := genAtoms
+  sym t v := (tokToWord (.sym t v)).toList
+  preSep t o := match t with
+    | .NOT => true                                                  -- joinWithSpace [NOT, operand]
+    | .c_bang => o.head? = some '!' || o.head? = some ':'           -- "!!" and "!:" would be read as one operator
+    | .c_minus => o.head? = some '-'                                -- "--" would begin a comment
+    | _ => false
+
+open Csvq.OpExpr Csvq.Clause Csvq.Label Csvq.Gen.Precedence in
+def lblx (words : List String) : String :=
+  match words.mapM wordToTok with
+  | none => "bad-op"
+  | some ts =>
+    match parseSelect genTable (.kw .select :: ts) with
+    | some (s, []) =>
+      String.intercalate " " (s.items.map fun it =>
+        match it with
+        | .expr e al => hexChars (labelText genSpell genTable (fieldName e al))
+        | _ => "*")
+    | _ => "ERR"
+
 /-! `c18.lalr`: the goyacc driver model over the token codes the real scanner produced -/
 
 /-- the loop of `Lalr.run` again, also folding the reductions (production, state) into a hash and counting them;
@@ -219,6 +258,7 @@ def c18 (cmd : String) (args : List String) : String :=
   | "opx", l => opx l
   | "sel", l => selx l
   | "qry", l => qryx l
+  | "lbl", l => lblx l
   | "lalr", l => lalrOp l
   | "unary", l =>
     match parseUExpr l with
